@@ -298,6 +298,13 @@ impl ClusterHandler for AdminCommHandler {
                 notify_change,
             )?;
 
+            // The resumption records of a rolled-back fabric must not meet
+            // the next fabric that gets the same index
+            #[cfg(feature = "case-resumption")]
+            if let Some(fab_idx) = removed_fabric {
+                state.resumption.remove_for_fabric(fab_idx);
+            }
+
             ctx.exchange().matter().transport().notify_session_removed();
 
             Ok::<_, Error>(removed_fabric)
